@@ -99,6 +99,7 @@ type lexer struct {
 
 // initialize/reset lexer with data string to lex
 func (l *lexer) init(data string) {
+	data = stripComments(data) // Comments are not part of the lexer grammar
 	l.p, l.pe = 0, len(data)
 	l.data = data
 }
